@@ -4,6 +4,7 @@ import (
 	"encoding/json"
 	"os"
 	"path/filepath"
+	"sort"
 
 	"verifsim/engine"
 )
@@ -34,9 +35,10 @@ func writeEvidence(prop, tier string, seed uint64, spec engine.PropSpec, a *Agg,
 		samples = append(samples, map[string]string{"note": "no fault-bearing run short enough to print was produced in this batch"})
 	}
 	profiles := []string{}
-	for _, p := range spec.Profiles {
-		profiles = append(profiles, p.Name)
+	for name := range a.PerProfile {
+		profiles = append(profiles, name)
 	}
+	sort.Strings(profiles)
 	starved := []string{}
 	for _, m := range spec.Mandatory {
 		if a.RunsWithProbe[m] == 0 {
